@@ -162,7 +162,7 @@ func (e *Enc) instr(cur *cursor, ins ssa.Instruction) {
 		case *types.Slice:
 			s := e.asTerm(base)
 			e.safety(cur, "idx", fmt.Sprintf("(and (<= 0 %s) (< %s (sl_len %s)))", idx, idx, s), x.Pos(), "slice index in range")
-			fc.vals[x] = term(e.define(x.Name(), "Addr", fmt.Sprintf("(selem %s %s)", s, idx)), x.Type())
+			fc.vals[x] = term(e.define(x.Name(), "Addr", selemT(s, idx)), x.Type())
 		case *types.Pointer:
 			at := u.Elem().Underlying().(*types.Array)
 			if base.K == vLocal {
@@ -225,6 +225,11 @@ func (e *Enc) instr(cur *cursor, ins ssa.Instruction) {
 		vv := e.heapGet(st, vn, vs)
 		e.heapSet(st, vn, vs, fmt.Sprintf("(store %s %s (store (select %s %s) %s %s))", vv, mp, vv, mp, k, v))
 	case *ssa.MakeInterface:
+		// no typed-nil pointers inside interfaces: proved where a pointer to a package-local struct is
+		// boxed, assumed where such a pointer is recovered by a type assertion
+		if pt, ok := x.X.Type().Underlying().(*types.Pointer); ok && e.m.structOf(pt.Elem()) != nil && isStruct(pt.Elem()) && !isNonNilValue(x.X) {
+			e.safety(cur, "boxnil", fmt.Sprintf("(not (= %s Nil))", e.asTerm(e.value(fc, x.X))), x.Pos(), "a nil *"+pt.Elem().String()+" must not be stored in an interface")
+		}
 		e.setVal(cur, x, e.box(e.value(fc, x.X), x.X.Type()))
 	case *ssa.ChangeInterface:
 		fc.vals[x] = term(e.asTerm(e.value(fc, x.X)), x.Type())
@@ -686,6 +691,9 @@ func (e *Enc) typeAssert(cur *cursor, x *ssa.TypeAssert) {
 	if ta := e.typeAssume(cur.st, val, x.AssertedType); ta != "true" {
 		e.assume(cur.guard, fmt.Sprintf("(=> %s %s)", ok, ta))
 	}
+	if pt, isP := x.AssertedType.Underlying().(*types.Pointer); isP && e.m.structOf(pt.Elem()) != nil && isStruct(pt.Elem()) {
+		e.assume(cur.guard, fmt.Sprintf("(=> %s (not (= %s Nil)))", ok, val))
+	}
 	if x.CommaOk {
 		v := e.define(x.Name(), e.m.sortOf(x.AssertedType), fmt.Sprintf("(ite %s %s %s)", ok, val, e.m.zero(x.AssertedType)))
 		fc.vals[x] = Val{K: vTuple, Tuple: []Val{term(v, x.AssertedType), term(ok, types.Typ[types.Bool])}}
@@ -736,7 +744,7 @@ func (e *Enc) bytesToStr(cur *cursor, sl string) string {
 	s := e.fresh("bstr", "Str")
 	arr := e.heapGet(cur.st, "M$uint8", "Int")
 	e.assume(cur.guard, fmt.Sprintf("(= (slen %s) (sl_len %s))", s, sl))
-	e.assume(cur.guard, fmt.Sprintf("(forall ((k Int)) (! (=> (and (<= 0 k) (< k (sl_len %s))) (= (sat %s k) (select %s (selem %s k)))) :pattern ((sat %s k))))", sl, s, arr, sl, s))
+	e.assume(cur.guard, fmt.Sprintf("(forall ((k Int)) (! (=> (and (<= 0 k) (< k (sl_len %s))) (= (sat %s k) (select %s (selem (sl_base %s) (sl_off %s) k)))) :pattern ((sat %s k))))", sl, s, arr, sl, sl, s))
 	return s
 }
 
